@@ -66,9 +66,28 @@ def protocol(rep, tier, scratch):
         if hangs >= 3:
             # three scenarios have hung (a minute each): the verdict is in
             break
-        recs, nm = pr.rename(pr.run_protocol(sc))
+        pvals = []
+        recs, nm = pr.rename(pr.run_protocol(sc, values=pvals))
         if any(r.get('ev') == 'hang' for r in recs):
             hangs += 1
+        elif not sc.get('bomb') and not any(r.get('ev') == 'error' for r in recs):
+            # transparency: the same scenario with every process serial gives the same
+            # values tick by tick - also in the store outside the compartments that
+            # the compartment processes write to (the last update of a process that
+            # is deleted or divided in the batch in which it is due)
+            svals = []
+            pr.run_protocol(sc, parallel=False, values=svals)
+            rep.evaluations += 1
+            if svals != pvals:
+                tick = next((j for j, (x, y) in enumerate(zip(svals, pvals)) if x != y),
+                            min(len(svals), len(pvals)))
+                rep.violation(
+                    {'kind': 'protocol-differential', 'op': op_kind(sc),
+                     'first_comp_ts': str(sc['comps'][0][1]), 'long': bool(sc.get('long'))},
+                    'a protocol scenario gives other values with parallel processes than with '
+                    'serial ones, first after update %d: serial %s parallel %s; scenario %s'
+                    % (tick + 1, json.dumps(svals[tick:tick + 1]), json.dumps(pvals[tick:tick + 1]),
+                       json.dumps(sc)), {'scenario': sc})
         traces.append(recs)
         names.append(nm)
         ran.append(sc)
